@@ -211,6 +211,17 @@ func xBuild(kb *expressions.CompiledKeyBuilder, ctx expressions.KeyBuilderContex
 	return kb.BuildKey(ctx), false
 }
 
+// c10Load runs the real funcs-file loader. A body whose constant part makes a helper panic while the loader folds it
+// (`{repeat x -1}`) crashes the compiler: C08's subject; such a file is redrawn like one that does not compile.
+func c10Load(text string) (m map[string]expressions.KeyBuilderFunction, err error) {
+	defer func() {
+		if r := recover(); r != nil {
+			m, err = nil, fmt.Errorf("the loader panicked: %v", r)
+		}
+	}()
+	return funcfile.LoadDefinitions(funclib.NewKeyBuilder(), strings.NewReader(text), "gen.funcs")
+}
+
 const c10Pattern = `^(?P<verb>\S+) (?P<code>\d+)(?: (?P<path>\S+))?`
 
 // shapes of the range family: %A is replaced by an array-valued expression, %S by a scalar sub-expression
@@ -520,7 +531,7 @@ func init() {
 				os.Stderr = devnull
 				logger.DeferLogs()
 				logger.ImmediateLogs()
-				loaded, lerr := funcfile.LoadDefinitions(funclib.NewKeyBuilder(), strings.NewReader(funcsText), "gen.funcs")
+				loaded, lerr := c10Load(funcsText)
 				os.Stderr = old
 				logger.DeferLogs()
 				logger.ImmediateLogs()
@@ -698,7 +709,7 @@ func init() {
 			}
 			t0 = time.Now()
 			if family == "timefuncs" {
-				loaded, lerr := funcfile.LoadDefinitions(funclib.NewKeyBuilder(), strings.NewReader(funcsText), "gen.funcs")
+				loaded, lerr := c10Load(funcsText)
 				if lerr != nil {
 					panic(lerr)
 				}
